@@ -11,17 +11,32 @@ type vTable = Table[int32, *vItem]
 
 const full = ^uint64(0)
 
-// tabInv: 64 item slots per mask word; spare mask capacity is zero (so that growing by
+// VerifTabInv: 64 item slots per mask word; spare mask capacity is zero (so that growing by
 // re-slicing exposes empty words); small enough that keys fit in int32.
-func tabInv(t *vTable) bool {
+// (Exported ghost functions, generic so that contracts in other packages can speak about
+// their own instantiation of Table.)
+func VerifTabInv[K ~int32, I any](t *Table[K, I]) bool {
 	return len(t.items) == 64*len(t.masks) && len(t.masks) < 1<<24 &&
 		verif_forall(func(i int) bool { return !(len(t.masks) <= i && i < cap(t.masks)) || t.masks[i] == 0 })
 }
 
-// tabHas is the abstract view: key k is present.
-func tabHas(t *vTable, k int) bool {
+// VerifTabHas is the abstract view: key k is present.
+func VerifTabHas[K ~int32, I any](t *Table[K, I], k int) bool {
 	return k >= 0 && k < 64*len(t.masks) && t.masks[k>>6]&(1<<uint(k&63)) != 0
 }
+
+// VerifTabGet is the item stored under k (meaningful when VerifTabHas).
+func VerifTabGet[K ~int32, I any](t *Table[K, I], k int) I { return t.items[k] }
+
+// VerifTabWords is the number of 64-slot words allocated.
+func VerifTabWords[K ~int32, I any](t *Table[K, I]) int { return len(t.masks) }
+
+// VerifMasks / VerifItems expose the backing slices for frame (modifies) clauses elsewhere.
+func VerifMasks[K ~int32, I any](t *Table[K, I]) []uint64 { return t.masks }
+func VerifItems[K ~int32, I any](t *Table[K, I]) []I      { return t.items }
+
+func tabInv(t *vTable) bool         { return VerifTabInv(t) }
+func tabHas(t *vTable, k int) bool  { return VerifTabHas(t, k) }
 
 //@ prop C16 C15
 //@ func (t *Table[int32, *vItem]) Lookup(key int32) (item *vItem, found bool)
@@ -83,3 +98,16 @@ func tabHas(t *vTable, k int) bool {
 //@   loop 1 (offset int, rangeindex int)
 //@     invariant -1 <= rangeindex && rangeindex < len(t.masks)-offset || (rangeindex == -1 && offset == len(t.masks))
 //@     invariant forall i int :: offset <= i && i <= offset+rangeindex ==> t.masks[i] == full
+
+//@ func (t *Table[int32, *vItem]) Reset()
+//@   requires tabInv(t)
+//@   ensures[inv] tabInv(t)
+//@   ensures[empty] forall k int :: !tabHas(t, k)
+//@   modifies elems(t.masks), elems(t.items)
+
+//@ func (t *Table[int32, *vItem]) Len() (n int)
+//@   requires tabInv(t)
+//@   ensures n >= 0
+//@   modifies nothing
+//@   loop 0 (rangeindex int)
+//@     invariant 0 <= n && n <= 64*(rangeindex+1)
